@@ -8,7 +8,7 @@ from ..translate import regen_all
 PROP = 'C18'
 MODULE = 'WaveletsVerif.Properties.C18'
 THEOREMS = ['WV.C18.level1_tables_ok', 'WV.C18.qshift_tables_ok', 'WV.C18.qshift_32_ok', 'WV.C18.all_tables_classified',
-            'WV.C18.loader_keys_known', 'WV.C18.farras_not_qshift']
+            'WV.C18.loader_keys_known', 'WV.C18.farras_not_qshift', 'WV.C18Z.miss_steps', 'WV.C18Z.hit_steps', 'WV.C18Z.loader_program_gen']
 KF = 'C18-non-qshift-tables-accepted'
 NOT_QSHIFT = ['farras', 'near_sym_a2']
 L1_KEYS = ('h0o', 'g0o', 'h1o', 'g1o')
